@@ -763,7 +763,7 @@ func exprPoly(info *types.Info, e ast.Expr, defs map[types.Object]localDef, stop
 		if (defs != nil || polyInlineNamed) && polyInline != nil && depth < 30 {
 			if f := calleeFunc(info, x); f != nil {
 				if hd, ok := polyInline[f]; ok && hd.info == info && len(polyInlining) < 4 && !polyInlining[f] {
-					ret := hd.fd.Body.List[0].(*ast.ReturnStmt).Results[0]
+					ret := hd.ret
 					saved := polyArgs
 					merged := map[types.Object]ast.Expr{}
 					for k, v := range saved {
@@ -791,7 +791,24 @@ func exprPoly(info *types.Info, e ast.Expr, defs map[types.Object]localDef, stop
 					if okArgs && i == len(x.Args) {
 						polyArgs = merged
 						polyInlining[f] = true
-						p, ok := exprPoly(info, ret, defs, stop, depth+6)
+						idefs := defs
+						if hd.defs != nil && defs != nil {
+							// (the pipeline's locals are read through in the resolved forms)
+							idefs = map[types.Object]localDef{}
+							for k, v := range defs {
+								idefs[k] = v
+							}
+							for k, v := range hd.defs {
+								if _, dup := idefs[k]; !dup {
+									idefs[k] = v
+								}
+							}
+						}
+						var p Poly
+						ok := false
+						if hd.defs == nil || defs != nil {
+							p, ok = exprPoly(info, ret, idefs, stop, depth+6)
+						}
 						delete(polyInlining, f)
 						polyArgs = saved
 						if ok {
@@ -1263,6 +1280,8 @@ func bitOperands(s string, op token.Token) []string {
 type inlineDecl struct {
 	fd   *ast.FuncDecl
 	info *types.Info
+	ret  ast.Expr                  // the value handed out (on success)
+	defs map[types.Object]localDef // for a value pipeline: its locals
 }
 
 var polyInline map[*types.Func]inlineDecl
@@ -1275,23 +1294,65 @@ var polyInlining = map[*types.Func]bool{}
 func inlinableFuncs(p *Prog) map[*types.Func]inlineDecl {
 	out := map[*types.Func]inlineDecl{}
 	p.funcDecls(func(pk *packages.Package, fd *ast.FuncDecl) {
-		if fd.Body == nil || len(fd.Body.List) != 1 {
+		if fd.Body == nil || len(fd.Body.List) == 0 {
 			return
 		}
-		r, ok := fd.Body.List[0].(*ast.ReturnStmt)
-		if !ok || len(r.Results) != 1 {
-			return
-		}
-		f, ok := pk.TypesInfo.Defs[fd.Name].(*types.Func)
+		info := pk.TypesInfo
+		f, ok := info.Defs[fd.Name].(*types.Func)
 		if !ok {
 			return
 		}
 		if sig, ok := f.Type().(*types.Signature); !ok || sig.Variadic() {
 			return
 		}
-		// the returned expression must be arithmetic over its parameters (not a call chain with effects): keep
-		// those exprPoly can read at all; decided at use
-		out[f] = inlineDecl{fd, pk.TypesInfo}
+		last, ok := fd.Body.List[len(fd.Body.List)-1].(*ast.ReturnStmt)
+		if !ok || len(last.Results) == 0 || len(last.Results) > 2 {
+			return
+		}
+		if len(last.Results) == 2 && !isNilExpr(info, last.Results[1]) {
+			return
+		}
+		if len(fd.Body.List) == 1 {
+			if len(last.Results) != 1 {
+				return
+			}
+			// the returned expression must be arithmetic over its parameters (not a call chain with effects): keep
+			// those exprPoly can read at all; decided at use
+			out[f] = inlineDecl{fd, info, last.Results[0], nil}
+			return
+		}
+		// a value pipeline: locals defined once, each fallible step followed by `if err != nil { return …, err }`, and a
+		// final return of the value (unexported functions only): read as the value it hands out on success, its locals
+		// spelled out
+		if fd.Name.IsExported() || fd.Recv != nil && fd.Name.IsExported() {
+			return
+		}
+		for _, st := range fd.Body.List[:len(fd.Body.List)-1] {
+			switch x := st.(type) {
+			case *ast.AssignStmt:
+				if x.Tok != token.DEFINE {
+					return
+				}
+			case *ast.DeclStmt:
+			case *ast.IfStmt:
+				// an error guard and nothing else
+				if x.Else != nil || x.Init != nil || len(x.Body.List) != 1 {
+					return
+				}
+				be, ok := ast.Unparen(x.Cond).(*ast.BinaryExpr)
+				if !ok || be.Op != token.NEQ || !(isNilExpr(info, be.X) || isNilExpr(info, be.Y)) {
+					return
+				}
+				r, ok := x.Body.List[0].(*ast.ReturnStmt)
+				if !ok || len(r.Results) == 0 || isNilExpr(info, r.Results[len(r.Results)-1]) {
+					return
+				}
+			default:
+				return
+			}
+		}
+		defs := singleDefs(info, fd.Body)
+		out[f] = inlineDecl{fd, info, last.Results[0], defs}
 	})
 	return out
 }
